@@ -51,6 +51,48 @@ def main(prop):
         from checks import c11
 
         c11.long_listing_probe(run)
+    if prop == "C01":
+        # "nothing outside that window of instructions influences the verdict" - nor does an EARLIER operation of the process
+        # (one with other options: an address range, full-match flags)
+        from vlib import jasmapi as _j
+
+        L1 = "".join(f"    {a}:\t{b:<21}\t{t}\n" for a, b, t in [("401126", "e8 05 00 00 00", "call   401130 <f>"), ("40112b", "85 c0", "test   %eax,%eax"), ("40112d", "74 0c", "je     40113b <g>"), ("40112f", "c3", "ret")])
+        plain = {"pattern": [{"call": ["401130"]}, {"test": ["%eax", "%eax"]}, {"je": ["40113b"]}]}
+        fresh = _j.run_pipeline(plain, L1, only_addr=True)
+        for nm, earlier in (("address range", {"config": {"valid_addr_range": {"min": "0x401000", "max": "0x401fff"}}, "pattern": ["ret"]}), ("full-match flags", {"config": {"mnemonics-full-match": True, "operands-full-match": True}, "pattern": ["ret"]})):
+            _j.run_pipeline(earlier, L1)
+            got = _j.run_pipeline(plain, L1, only_addr=True)
+            run.count("traces_validated_against_impl")
+            if got != ["401126"] or fresh != ["401126"]:
+                run.failure("item_sequence/AFTER-EARLIER-OPERATION", f"rule call/test/je on its own window: {fresh} when run first, {got} after an operation with {nm} (expected ['401126'] both times)", {"kind": "sequence", "items": [], "seq": []})
+    if prop == "C01":
+        # rare but real objdump operand shapes, end to end: the k-th operand NAME is looked for in the k-th OPERAND (the
+        # reference normal form of C09 says what the operands are); a rule with the names rotated must not be found there
+        import re as _re
+        from checks import lxprops as _lx
+
+        lines, recs = [], []
+        for i, (raw, m, ops) in enumerate(_lx.RARE_LINES):
+            a = format(0x401000 + 8 * i, "x")
+            lines.append(f"  {a}:\t{raw:<21}\t{(m + ' ').ljust(7) + ops if ops else m}")
+            norm = [_lx.reference_normal_form(o) for o in _lx.split_top_level(ops)] if ops else []
+            toks = [(_re.findall(r"%[a-z0-9]+|0x[0-9a-f]+|[0-9a-f]{4,}", o) or [None])[0] for o in norm]
+            recs.append((a, m, toks))
+        listing = "\n".join(lines) + "\n"
+        for a, m, toks in recs:
+            if any(t is None for t in toks):
+                continue
+            cfg1 = {"mnemonics-full-match": True}
+            got = _j.run_pipeline({"config": cfg1, "pattern": [{m: toks} if toks else m]}, listing, only_addr=True)
+            run.count("traces_validated_against_impl")
+            if a not in got:
+                run.failure("item/RARE-SHAPE/found", f"instruction at {a}: rule {m}: {toks} (names taken from its own operands, in order) is not found there; found at {got}", {"kind": "sequence", "items": [], "seq": []})
+            if len(toks) >= 2 and len(set(toks)) == len(toks) and not any(x in y for x in toks for y in toks if x is not y):
+                rot = toks[1:] + toks[:1]
+                got2 = _j.run_pipeline({"config": cfg1, "pattern": [{m: rot}]}, listing, only_addr=True)
+                run.count("traces_validated_against_impl")
+                if a in got2:
+                    run.failure("item/RARE-SHAPE/rotated", f"instruction at {a}: rule {m}: {rot} (operand names rotated) is found there although operand k does not contain name k", {"kind": "sequence", "items": [], "seq": []})
     if prop == "C04":
         # the typing of a $not must not depend on what was compiled before in the same process
         seq_items = [
@@ -80,6 +122,20 @@ def main(prop):
                 extra = {"macros": [{"name": "@any", "pattern": "[^, |]{1,1000}"}]} if "@any" in str(pat) else None
                 seq_items.append((f"{nm}_{T.ftag(mf, of)}", T.doc_of(pat, mf, of, extra), None))
         lemmas.sequence_invariance(run, seq_items, "flags")
+    if prop == "C07":
+        # "an address that occurs in the input": the input is the file as it is NOW - the same path holding another listing
+        from vlib import jasmapi as _j
+
+        l1 = "".join(f"    {0x401000 + 4 * i:x}:\t48 89 c3             \t{m}\n" for i, m in enumerate(["push   %rbp", "mov    %rsp,%rbp", "call   401100 <f>", "ret"]))
+        l2 = "".join(f"    {0x402000 + 4 * i:x}:\t48 89 c3             \t{m}\n" for i, m in enumerate(["nop", "push   %rbp", "mov    %rsp,%rbp", "call   401100"]))
+        l2 = l2 + " " * (len(l1) - len(l2)) if len(l2) < len(l1) else l2
+        try:
+            (a1, s1), (a2, s2) = _j.rewritten_input_results({"pattern": ["push", "mov"]}, l1, l2[:len(l1)] if len(l2) > len(l1) else l2)
+            run.count("traces_validated_against_impl")
+            if a1 != ["401000"] or a2 != ["402004"] or any(x not in l2 for x in a2):
+                run.failure("genuine_address/INPUT-REWRITTEN", f"listing at one path rewritten between two matches: first {a1}, second {a2} (expected ['401000'] then ['402004'], addresses of the CURRENT file)", {"kind": "sequence", "items": [], "seq": []})
+        except AssertionError:
+            run.harness_error("rewritten-input probe: listings of different length")
     if prop == "C07":
         # the reported text must be the engine's whole match (group 0) and the reported address its prefix: the
         # forwarding harness of C12 (engine stubbed) — a rule with capture groups must not change what is reported
